@@ -506,6 +506,31 @@ func ctrlConds(b *ssa.BasicBlock) []string {
 	return out
 }
 
+// ctrlEdge is one branch edge that dominates a block.
+type ctrlEdge struct {
+	If    *ssa.If
+	Taken bool // the true successor
+}
+
+func ctrlEdges(b *ssa.BasicBlock) []ctrlEdge {
+	var out []ctrlEdge
+	for _, blk := range b.Parent().Blocks {
+		if len(blk.Instrs) == 0 {
+			continue
+		}
+		iff, ok := blk.Instrs[len(blk.Instrs)-1].(*ssa.If)
+		if !ok || blk.Succs[0] == blk.Succs[1] {
+			continue
+		}
+		for k := range blk.Succs {
+			if edgeDominates(blk, k, b) {
+				out = append(out, ctrlEdge{iff, k == 0})
+			}
+		}
+	}
+	return out
+}
+
 func isExtractOfCall(v ssa.Value, name string) bool {
 	e, ok := v.(*ssa.Extract)
 	return ok && isCallValue(e.Tuple, name)
